@@ -96,6 +96,12 @@ package lexer
 //@        old(l.line), old(l.lineStartPos), old(l.currentPos), l.line, l.lineStartPos, l.currentPos)
 //@   loop 0 invariant [C04] 1 <= i && i <= len(l.chunk) && 1 <= stringStart && stringStart <= i && l.chunk == old(l.chunk) && l.currentPos == old(l.currentPos)
 //@        && (forall(k, 0, i, !nlb(l.chunk[k])) ==> l.line == old(l.line) && l.lineStartPos == old(l.lineStartPos))
+// whatever the literal contains (escapes before multi-byte characters included): a closed literal moves the counter by
+// columnWidth() of exactly the bytes it consumed - there is no second way of counting
+//@   at call columnWidth#0 before assert[C04,width-is-taken-of-the-literal-as-written] sametext(arg0, l.chunk) && off(arg0) == off(l.chunk) && len(arg0) == i
+//@   ensures[C04,closed-literal-advances-by-the-column-width-of-the-bytes-consumed] hits("errorPrint#0") == 0 && hits("errorPrint#1") == 0 ==>
+//@        hits("columnWidth#0") == 1 && l.currentPos == old(l.currentPos) + lastresult("columnWidth#0")
+//@        && off(l.chunk) == off(old(l.chunk)) + snapshot("columnWidth#0", i) && isSuffix(l.chunk, old(l.chunk))
 //@ end
 
 // short comment: up to, not including, the line break
